@@ -82,6 +82,75 @@ def harness_complete(buf):
     return len(buf) >= int.from_bytes(buf[3:7], 'big') + 8
 
 
+class PristineRefs:
+    """A helper process forked at the very start of a run, before the run
+    has made any library call: it later decodes every undamaged frame of the
+    run in isolation, in REVERSE order of sending.  If a decode depends on
+    what was decoded before it, this order and the sending order disagree."""
+
+    def __init__(self):
+        import os
+        import pickle
+        self.r1, self.w1 = os.pipe()
+        self.r2, self.w2 = os.pipe()
+        self.pid = os.fork()
+        if self.pid == 0:
+            code = 1
+            try:
+                os.close(self.w1)
+                os.close(self.r2)
+                with os.fdopen(self.r1, 'rb') as f:
+                    req = f.read()
+                out = []
+                if req:
+                    datas = pickle.loads(req)
+                    METER.install()
+                    res = {}
+                    for d in reversed(datas):
+                        if d in res:
+                            continue
+                        st, val, _ = METER.run(lib.frame.unmarshal, d,
+                                               STEP_CAP_OTHER)
+                        ref = None
+                        if st == 'ok':
+                            try:
+                                n, ch, f = val
+                                if n == len(d):
+                                    ref = (n, ch, canon_frame(f))
+                            except Exception:
+                                ref = None
+                        res[d] = ref
+                    out = [res[d] for d in datas]
+                with os.fdopen(self.w2, 'wb') as f:
+                    f.write(pickle.dumps(out))
+                code = 0
+            finally:
+                os._exit(code)
+        os.close(self.r1)
+        os.close(self.w2)
+
+    def ask(self, datas):
+        import os
+        import pickle
+        with os.fdopen(self.w1, 'wb') as f:
+            f.write(pickle.dumps(list(datas)))
+        with os.fdopen(self.r2, 'rb') as f:
+            data = f.read()
+        os.waitpid(self.pid, 0)
+        if not data:
+            raise RuntimeError('harness: pristine reference helper died')
+        return pickle.loads(data)
+
+    def drop(self):
+        import os
+        try:
+            os.close(self.w1)
+            os.close(self.r2)
+            os.waitpid(self.pid, 0)
+        except OSError:
+            pass
+
+
 class RunA:
     def __init__(self, trace, props, keep_log=False):
         self.trace = trace
@@ -341,6 +410,28 @@ class RunA:
             self.probe('frame_not_valid_in_isolation')
         self.ref_cache[data] = ref
         return ref
+
+    def check_refs_against_pristine(self, helper, conns):
+        """C06: the isolated decode of a frame must not depend on what this
+        process decoded before it (here: the frames sent earlier)."""
+        frames = [fi for c in conns for fi in c.frames
+                  if not fi.damaged and fi.kind != 'raw' and fi.data]
+        refs = helper.ask([fi.data for fi in frames])
+        for fi, pr in zip(frames, refs):
+            self.oracle('C06.history')
+            if pr is not None and fi.ref is not None and pr != fi.ref:
+                self.fail('C06', 'history', ['delivery', 'history', fi.kind],
+                          'the %s frame %d decodes differently depending on '
+                          'which frames were decoded before it in the same '
+                          'process (in sending order vs. in a pristine '
+                          'process, in reverse order)' % (fi.kind, fi.idx),
+                          fi.data)
+            elif (pr is None) != (fi.ref is None):
+                self.fail('C06', 'history', ['delivery', 'history-refused',
+                                             fi.kind],
+                          'the %s frame %d is accepted or refused depending '
+                          'on which frames were decoded before it' % (
+                              fi.kind, fi.idx), fi.data)
 
     def build_conn(self, ci, ct):
         c = Conn()
@@ -861,6 +952,10 @@ class RunA:
         if self.threaded:
             return self.execute_threaded()
         METER.install()
+        helper = None
+        if 'C06' in self.props and self.trace.get('population') in (
+                'frag', 'long'):
+            helper = PristineRefs()   # before this run touches the library
         conns = []
         heap = []
         seq = 0
@@ -871,6 +966,9 @@ class RunA:
                 self.ev('conn', ci, c.recv, len(c.frames), len(c.stream))
                 heapq.heappush(heap, (c.lat[0], seq, ci))
                 seq += 1
+            if helper is not None:
+                self.check_refs_against_pristine(helper, conns)
+                helper = None
             self.vtime = 0
             while heap:
                 now, _, ci = heapq.heappop(heap)
@@ -884,6 +982,9 @@ class RunA:
                     seq += 1
         except Violation:
             pass
+        finally:
+            if helper is not None:
+                helper.drop()
         nontrivial = bool(self.oracle_evals) and any(
             v for k, v in self.fired.items())
         return {
